@@ -44,8 +44,8 @@ MANIFEST = dict(
 IMPORTS = ['SV.SM.AtomicWriter', 'SV.Gen.AtomicWriter_gen', 'Coq.Lists.List']
 PRE = 'Import ListNotations.\n'
 
-OLD_TOK = 900      # File k had content [OLD_TOK + k] before
-STALE_TOK = 950    # stale tmp_i had content [STALE_TOK + i] before
+OLD_TOK = 100      # File k had content [OLD_TOK + k] before
+STALE_TOK = 110    # stale tmp_i had content [STALE_TOK + i] before
 W_MODES = set('wxa+')
 
 
@@ -583,7 +583,15 @@ def single_campaign(ck: Ck, scs: list[dict], do_model: bool) -> None:
                    'model_scenario': scen_coq})
 
         # ---- a kill before every operation (k operations completed), executed in a forked child
+        # long traces (BSP.save: one raw write per deferred header slot): the quick tier executes every kill/fault point
+        # that is not a write plus a seeded sample of the writes; the thorough tier (and any broken tie) executes all
+        full = len(ops0) <= 24 or ck.thorough or bool(ck.tie_broken)
+        keep = {o['k'] for o in ops0 if o['op'] != 'write'} | {len(ops0)} | {0}
+        wks = [o['k'] for o in ops0 if o['op'] == 'write']
+        keep |= set(wks[:2] + wks[-2:] + ck.rng.sample(wks, min(len(wks), 10)))
         for k in range(0, len(ops0) + 1):
+            if not full and k not in keep and (k + 1) not in keep:
+                continue
             rc, lst = run_crash(sc, fresh('crash'), k)
             ck.count('crash_points_executed')
             if rc not in (77, 0):
@@ -618,7 +626,7 @@ def single_campaign(ck: Ck, scs: list[dict], do_model: bool) -> None:
 
         # ---- one OSError at every operation
         for o in ops0:
-            if not o['inj']:
+            if not o['inj'] or (not full and o['k'] not in keep):
                 continue
             k = o['k']
             r = run_single(sc, fresh('fault'), fault_at=k)
@@ -810,15 +818,19 @@ def run_two(scs: tuple[dict, dict], root: str, prefix: list[int], init: dict[str
 
 def two_writer_campaign(ck: Ck, do_model: bool) -> None:
     work = str(ck.scratch / 'c12_two')
+    big = ck.thorough or bool(ck.tie_broken)
     pairs = [
-        ('plain', dict(dest='a.bin', chunks=[b'A1', b'A2']), dict(dest='b.bin', chunks=[b'B1']),
-         {'a.bin': b'OLDA', 'b.bin': b'OLDB', 'keep.txt': b'k'}),
+        # (tag, writer A, writer B, initial directory, schedule limit)
+        ('plain', dict(dest='a.bin', chunks=[b'A1']), dict(dest='b.bin', chunks=[b'B1']),
+         {'a.bin': b'OLDA', 'b.bin': b'OLDB', 'keep.txt': b'k'}, 5000),
         ('stale+raise', dict(dest='a.bin', chunks=[b'A1']), dict(dest='b.bin', chunks=[b'B1', b'B2'], raise_after=1),
-         {'a.bin': b'OLDA', 'tmp_1': b'STALE1', 'keep.txt': b'k'}),
+         {'a.bin': b'OLDA', 'tmp_1': b'STALE1', 'keep.txt': b'k'}, 5000 if big else 200),
     ]
-    limit = ck.budget(350, 6000)
+    if big:
+        pairs.append(('two-chunks', dict(dest='a.bin', chunks=[b'A1', b'A2']), dict(dest='b.bin', chunks=[b'B1', b'B2']),
+                      {'a.bin': b'OLDA', 'b.bin': b'OLDB', 'tmp_2': b'STALE2'}, 6000))
     cases: list[dict] = []
-    for tag, sa, sb, init in pairs:
+    for tag, sa, sb, init, limit in pairs:
         nm = NameMap({'init': init, 'dest': sa['dest']}, dests=[sa['dest'], sb['dest']])
         # token numbering: writer w's j-th chunk is token 10*(w+1)+j
         toks = [[10 * (w + 1) + j + 1 for j in range(len(s['chunks']) if s.get('raise_after') is None else s['raise_after'])]
@@ -986,15 +998,25 @@ def run(ck: Ck) -> None:
     if dig and (dig.get('__exit__'), dig.get('make_tempfile')) not in KNOWN_DIGESTS:
         ck.notes.append('AtomicWriter source differs from the versions the model was written against: thorough budgets')
         ck.tier = 'thorough' if os.environ.get('VERIF_NO_ESCALATE') is None else ck.tier
+    import time
+    stage: dict[str, float] = {}
+    ck.extra['stage_seconds'] = stage
+    stage['translate+build+obligations'] = round(time.time() - ck.t0, 1)
+    t1 = time.time()
     scs = scenarios(ck)
     single_campaign(ck, scs, bool(built))
+    stage['single'] = round(time.time() - t1, 1)
+    t1 = time.time()
     try:
         bscs = bsp_scenarios(ck)
     except Exception as e:     # the BSP sample could not be prepared: say so, do not hide it
         ck.obligation('bsp-sample', False, f'could not prepare the BSP sample: {e!r}')
         bscs = []
     single_campaign_bsp(ck, bscs, bool(built))
+    stage['bsp'] = round(time.time() - t1, 1)
+    t1 = time.time()
     two_writer_campaign(ck, bool(built))
+    stage['two'] = round(time.time() - t1, 1)
     keys = {v['key'] for v in ck.violations}
     if any(k.startswith('temp-left-after-close-fault') or k.startswith('temp-left-after-flush-fault') for k in keys):
         ck.explain('instance:failing_close_still_unlinks_temp')
